@@ -63,7 +63,19 @@ pub fn world_for(prop: &str, rs: u64, world_arg: Option<&str>) -> &'static str {
     let r = mix(rs, 0x3042) % 100;
     let wide = cfg!(feature = "32_components");
     match prop {
-        "C11" | "C07" | "C03" => {
+        "C03" => {
+            // forged and alien handles against every world shape, incl. the single-archetype one
+            if wide && r >= 90 {
+                "W32"
+            } else if r < 74 {
+                "WA"
+            } else if r < 84 {
+                "W16"
+            } else {
+                "WZ"
+            }
+        }
+        "C11" | "C07" => {
             if wide && r >= 86 {
                 "W32"
             } else if r < 88 {
@@ -295,7 +307,7 @@ pub fn sizesf_enum_spec(rs: u64, unit: u64) -> RunSpec {
     let rest = unit / sizes.len() as u64;
     let posc = rest % SIZESF_POS;
     let a = ((rest / SIZESF_POS) % 6) as u8;
-    let ncols: u32 = [1, 2, 3, 5, 2, 1][a as usize];
+    let ncols: u32 = [1, 2, 3, 5, 3, 1][a as usize];
     let cells = n * ncols;
     let mut rng = crate::gen::Rng::new(rs);
     let pos = |c: u64, rng: &mut crate::gen::Rng| -> u32 {
